@@ -30,7 +30,7 @@ def floors(ctx):
     return {"evaluations": 5000 if q else 50000, "small_count_default_connectivity": 50,
             "hostile_stream_runs": 100, "reproducibility_checked": 500, "graphs_with_links": 1000,
             "large_count_runs": 50, "fresh_process_reproducibility_checks": 3,
-            "runs_with_an_extreme_raw_draw": 1000}
+            "runs_with_an_extreme_raw_draw": 1000, "seeded_pairs_run_in_a_worker_thread": 20}
 
 
 class ScriptedStream:
@@ -178,10 +178,10 @@ def judge(ctx, count, cname, conn, ensure, how, case):
     return adj
 
 
-def run_seeded(ctx, count, cname, conn, ensure, seed):
+def run_seeded(ctx, count, cname, conn, ensure, seed, how=None):
     state = random.getstate()
     try:
-        case = {"count": count, "cls": cname, "conn": conn, "ensure": ensure, "seed": seed, "stream": None}
+        case = {"count": count, "cls": cname, "conn": conn, "ensure": ensure, "seed": seed, "stream": None, "thread": how}
         random.seed(seed)
         a1 = judge(ctx, count, cname, conn, ensure, f"random.seed({seed})", case)
         if a1 is not None:
@@ -189,10 +189,32 @@ def run_seeded(ctx, count, cname, conn, ensure, seed):
             a2 = judge(ctx, count, cname, conn, ensure, f"random.seed({seed}) again", case)
             ctx.count("reproducibility_checked")
             if a2 is not None and a1 != a2:
-                ctx.violation("not_reproducible", f"randgraph(count={count}, edge={cname}, connectivity={conn}, "
-                              f"ensurelink={ensure}) after random.seed({seed}) gave {a1} then {a2}", case)
+                ctx.violation("not_reproducible" + (":in_worker_thread" if how else ""),
+                              f"randgraph(count={count}, edge={cname}, connectivity={conn}, "
+                              f"ensurelink={ensure}) after random.seed({seed}) gave {a1} then {a2}"
+                              + (f" [called from a {how}]" if how else ""), case)
     finally:
         random.setstate(state)
+
+
+def run_seeded_in_worker_thread(ctx, count, cname, conn, ensure, seed):
+    """The same seeded pair, called from a thread that is not the main thread (a worker of a pool, a GUI callback)."""
+    import threading
+
+    box = []
+
+    def work():
+        try:
+            run_seeded(ctx, count, cname, conn, ensure, seed, how="worker thread")
+        except BaseException as exc:  # noqa: BLE001
+            box.append(exc)
+
+    t = threading.Thread(target=work, name="egverif-c20-worker")
+    t.start()
+    t.join()
+    ctx.count("seeded_pairs_run_in_a_worker_thread")
+    if box:
+        raise box[0]
 
 
 def run_hostile(ctx, count, cname, conn, ensure, mode):
@@ -263,6 +285,8 @@ def run(ctx):
                 for ensure in (True, False):
                     for s in range(nseeds):
                         run_seeded(ctx, count, cname, conn, ensure, base + s)
+                    if k % 4 == 1:
+                        run_seeded_in_worker_thread(ctx, count, cname, conn, ensure, base + 77)
                     if ctx.shard == 0:
                         for mode in ("min", "max", "alt"):
                             run_hostile(ctx, count, cname, conn, ensure, mode)
@@ -316,6 +340,8 @@ def replay(ctx, case):
         run_spiked(ctx, case["count"], case["cls"], case["conn"], case["ensure"], case["seed"], case["spike"][0], case["spike"][1])
     elif case.get("stream"):
         run_hostile(ctx, case["count"], case["cls"], case["conn"], case["ensure"], case["stream"])
+    elif case.get("thread"):
+        run_seeded_in_worker_thread(ctx, case["count"], case["cls"], case["conn"], case["ensure"], case["seed"])
     else:
         run_seeded(ctx, case["count"], case["cls"], case["conn"], case["ensure"], case["seed"])
     ctx.nontrivial("replay-a")
